@@ -541,6 +541,11 @@ UPGRADER:
 				return ErrCRExpected
 			default:
 				if !isHex(c) && p.chunkSize < 0 {
+					// the size ends here: only a chunk extension (or
+					// whitespace in front of it) may follow the digits.
+					if c != ';' && c != '\t' {
+						return ErrInvalidChunkSize
+					}
 					chunkSize, err := parseAndValidateChunkSize(string(data[start:i]))
 					if err != nil {
 						return err
